@@ -135,16 +135,17 @@ pub fn pool_request(v: Version, k: usize) -> Vec<u8> {
     std_request(v, &nonce(0x9000 + p as u64, v.nonce_len()))
 }
 
-/// Datagrams that must be rejected. The variant rotates with the event's position in the history,
-/// so every variant meets every context across the enumeration:
+/// Datagrams that must be rejected. The variant rotates with the event's position in the history
+/// and a digest of the whole history, so every variant meets every context across the enumeration:
 ///  0: right length, not a message (count word 3 followed by garbage offsets)
 ///  1: an empty datagram; 2: a 7-byte runt
 ///  3 / 4: over-long (1600 bytes) whose first 1500 bytes are a well-formed classic / IETF request
 ///  5: a valid classic request cut to 1020 bytes (below the minimum)
 ///  6: a framed request naming only the classic version number (no supported version for a frame)
 ///  7 / 8: a valid classic request followed by one / three stray bytes (length not a multiple of 4)
+///  9: a well-formed IETF request that names ANOTHER server (foreign SRV value)
 pub fn bad_datagram(variant: usize) -> Vec<u8> {
-    match variant % 9 {
+    match variant % 10 {
         0 => {
             // right length, not a message
             let mut d = vec![0x03, 0, 0, 0, 0xff, 0xff, 0xff, 0xff];
@@ -166,9 +167,10 @@ pub fn bad_datagram(variant: usize) -> Vec<u8> {
         6 => rtref::responder::ietf_request(&[0, 0, 0, 0], None, &nonce(0x9103, 32), 1024),
         7 | 8 => {
             let mut d = rtref::responder::classic_request(&nonce(0x9104, 64), 1024);
-            d.extend(std::iter::repeat(0x5a).take(if variant % 9 == 7 { 1 } else { 3 }));
+            d.extend(std::iter::repeat(0x5a).take(if variant % 10 == 7 { 1 } else { 3 }));
             d
         }
+        9 => rtref::responder::ietf_request(&rtref::proto::VER_IETF13, Some(&crypto::srv_value(&crypto::public_key(&[0x33; 32]))), &nonce(0x9105, 32), 1024),
         _ => {
             let mut d = rtref::responder::classic_request(&nonce(0x9102, 64), 1024);
             d.truncate(1020);
@@ -190,6 +192,9 @@ pub fn run_events(srv: &mut Srv, evs: &[Ev], nsock: usize, capture_log: bool) ->
         crate::inproc::capture_start();
     }
     let t_before_us = now_us();
+    // which rejected kind a `Bad` event sends depends on its position and on the whole history, so
+    // that across the enumeration every kind meets every context even in short histories
+    let salt: usize = evs.iter().enumerate().map(|(i, e)| (i + 1) * match e { Ev::Req(s, Version::Classic) => 1 + s, Ev::Req(s, Version::Ietf13) => 3 + s, Ev::Bad(s) => 5 + s, Ev::Step => 7, Ev::Handoff => 8, Ev::StepInject(..) => 9 }).sum();
     for (pos, e) in evs.iter().enumerate() {
         match *e {
             Ev::Req(s, v) => {
@@ -201,7 +206,7 @@ pub fn run_events(srv: &mut Srv, evs: &[Ev], nsock: usize, capture_log: bool) ->
                 sent.push(Sent { sock: s, version: Some(v), bytes: b, t_sent_us: t });
             }
             Ev::Bad(s) => {
-                let b = bad_datagram(pos);
+                let b = bad_datagram(pos + salt);
                 let t = now_us();
                 clients[s].send(srv.addr, &b);
                 sent.push(Sent { sock: s, version: None, bytes: b, t_sent_us: t });
